@@ -723,6 +723,8 @@ impl<T> LockFreeStack<T> {
             }
 
             #[cfg(zipora_verif)]
+            crate::verif::point_here(crate::verif::Op::Other, head as usize);
+            #[cfg(zipora_verif)]
             crate::verif::mem::touch(head as usize, "LockFreeStack::Node");
             let next = unsafe { (*head).next };
             if self
